@@ -432,6 +432,13 @@ func WithHELO(helo string) Option {
 		if helo == "" {
 			return ErrInvalidHELO
 		}
+		// The value is the single argument of the EHLO/HELO command. Whitespace would
+		// introduce additional arguments and control characters are never valid.
+		for i := 0; i < len(helo); i++ {
+			if helo[i] <= ' ' || helo[i] == 127 {
+				return ErrInvalidHELO
+			}
+		}
 		c.helo = helo
 		return nil
 	}
